@@ -178,6 +178,7 @@ LEVEL_TEXT = (
     "Bounded-exhaustive relation checking between pairs of real runs: for every cell (kind x heavyness x process x scheme x PTO x Q2) and every target of the alphabet "
     "(incl. non-integer Z/A not in {0,1/2,1}, which are the discriminating ones because the mixing matrix is symmetric) the target operator must equal the isospin rotation of the "
     "proton operator row by row for every order key and leave all other rows unchanged (1e-13 relative to the terms plus the largest entry of the tensor); every named target must be bit-identical to its documented (Z,A) and unknown names must raise ValueError."
+    " A sub-lattice crosses the rotation with non-canonical beams, TMC, polarisation + propagator correction and cross-section kinds."
 )
 LEVEL_NOTE = "Trusted: numpy arithmetic; documented (Z,A) values transcribed from docs/misc.rst and the citations in the code. Other grids/kinematics and targets outside the alphabet are not covered."
 TECHNIQUE = "bounded-exhaustive enumeration of cells x targets; differential relation oracle between two public runs"
